@@ -28,7 +28,7 @@ ASSUMPTIONS = ["PARTIAL: the expectation and the MSE bound are not theorems. Dec
 
 
 def correspond(run):
-    n = 500 if run.tier == "quick" else 5000
+    n = 500 if run.depth == "quick" else 5000
     for kind in ("superminhash", "superminhash2"):
         cases, codes = sklib.correspond_sk(run, n, kind)
         if cases is None:
